@@ -71,6 +71,9 @@ pub struct Profile {
     pub use_all_resources: bool,
     /// chance (n/8) per vertex input struct to be also bound as a storage buffer (role "both")
     pub vin_as_storage: u32,
+    /// chance (n/8) per entry result struct to be also bound as a storage buffer (directly, as array
+    /// element or nested in a fresh struct)
+    pub out_as_storage: u32,
 }
 
 impl Profile {
@@ -105,6 +108,7 @@ impl Profile {
             multisampled: true,
             use_all_resources: false,
             vin_as_storage: 0,
+            out_as_storage: 0,
         }
     }
 }
@@ -1090,13 +1094,40 @@ pub fn gen_shader(ch: &mut Ch, p: &Profile) -> Shader {
             sh.entries.push(Entry { stage: *stage, name, params, result, wg, body });
         }
     }
+    // entry points of different stages are interleaved in declaration order
+    shuffle(ch, &mut sh.entries);
     if p.vin_as_storage > 0 {
         for st in shared_vin.clone() {
             if ch.chance(p.vin_as_storage, 8) && !sh.structs[st].members.iter().any(|m| matches!(m.io, Io::Builtin(_))) {
                 let used: HashSet<u32> = sh.globals.iter().filter_map(|g| g.binding).filter(|b| b.0 == 0).map(|b| b.1).collect();
                 let b = (0..).find(|b| !used.contains(b)).unwrap();
-                let ty = if ch.flip() { Ty::St(st) } else { Ty::A(Box::new(Ty::St(st)), 2) };
+                let ty = match ch.below(3) {
+                    0 => Ty::St(st),
+                    1 => Ty::A(Box::new(Ty::St(st)), 2),
+                    _ => Ty::A(Box::new(Ty::A(Box::new(Ty::St(st)), 2)), 3),
+                };
                 sh.globals.push(Global { name: names.fresh(ch, "vbuf_", p.nonascii), kind: GKind::Buf { space: Space::StorageR, ty }, binding: Some((0, b)) });
+                sh.global_order.push(sh.globals.len() - 1);
+            }
+        }
+    }
+    if p.out_as_storage > 0 {
+        let outs: Vec<usize> = sh.entries.iter().filter_map(|e| if let EResult::Struct(i) = &e.result { Some(*i) } else { None }).collect();
+        for st in outs {
+            if ch.chance(p.out_as_storage, 8) {
+                let used: HashSet<u32> = sh.globals.iter().filter_map(|g| g.binding).filter(|b| b.0 == 0).map(|b| b.1).collect();
+                let b = (0..).find(|b| !used.contains(b)).unwrap();
+                let ty = match ch.below(3) {
+                    0 => Ty::St(st),
+                    1 => Ty::A(Box::new(Ty::St(st)), 2),
+                    _ => {
+                        let name = names.fresh(ch, "Wrap", p.nonascii);
+                        let m = names.fresh(ch, "m", p.nonascii);
+                        sh.structs.push(StructDef { name, members: vec![Member::plain(&m, Ty::St(st))] });
+                        Ty::St(sh.structs.len() - 1)
+                    }
+                };
+                sh.globals.push(Global { name: names.fresh(ch, "obuf_", p.nonascii), kind: GKind::Buf { space: Space::StorageR, ty }, binding: Some((0, b)) });
                 sh.global_order.push(sh.globals.len() - 1);
             }
         }
